@@ -48,6 +48,7 @@ type c19Transmit struct {
 	From    int         `json:"from"`
 	Round   uint64      `json:"round"`
 	Results []c19Result `json:"results"`
+	Garbage bool        `json:"garbage,omitempty"` // the report bytes are not a report at all (the simulated contract accepts any bytes): no event
 }
 
 type c19Del struct {
@@ -460,6 +461,9 @@ func runConfCase(t *testing.T, c *c19Case, dobs *directObs) {
 					if err != nil {
 						t.Fatal(err)
 					}
+					if tr.Garbage {
+						rep = []byte("\x00not a report")
+					}
 					// round made unique per delivery so that the loader accepts each transmit
 					if err := tl.Transmit(txFrom(tr.From), rep, uint64(di)*1000+uint64(ti)*10+tr.Round%10); err != nil {
 						dobs.violate("transmit loader rejected a report in a round it had not seen", map[string]any{"family": c.Family, "delivery": di, "transmit": ti, "error": err.Error()})
@@ -484,7 +488,8 @@ func runConfCase(t *testing.T, c *c19Case, dobs *directObs) {
 		}
 		evs, err := rt.GetLatestEvents(context.Background())
 		if err != nil {
-			t.Fatal(err)
+			dobs.violate("the report tracker returned an error instead of the transmit events of the look-back", map[string]any{"family": c.Family, "deliveries": c.Deliveries, "error": err.Error()})
+			evs = nil
 		}
 		c.Obs.Events = nil
 		for _, e := range evs {
@@ -521,7 +526,11 @@ func confTerm(c c19Case) string {
 		}
 		var ts []string
 		for ti, tr := range d.Transmits {
-			res := CoqList(tr.Results, func(r c19Result) string { return fmt.Sprintf("(%d, %d)", r.Upkeep, r.Check) })
+			rs := tr.Results
+			if tr.Garbage {
+				rs = nil
+			}
+			res := CoqList(rs, func(r c19Result) string { return fmt.Sprintf("(%d, %d)", r.Upkeep, r.Check) })
 			ts = append(ts, fmt.Sprintf("mkTev %d %d %s", d.N, confHashNo(i, ti), res))
 		}
 		return fmt.Sprintf("mkDel %d (Some %s)", d.N, CoqList(ts, func(s string) string { return s }))
@@ -548,7 +557,7 @@ func confDeliveries(r *Rng, nums []uint64, txEvery int, maxRes int) []c19Del {
 			d.HasTx = true
 			nt := 1 + r.Intn(2)
 			for j := 0; j < nt; j++ {
-				tr := c19Transmit{From: 1 + r.Intn(4), Round: uint64(r.Intn(10))}
+				tr := c19Transmit{From: 1 + r.Intn(4), Round: uint64(r.Intn(10)), Garbage: r.Chance(1, 12)}
 				for k := 0; k < 1+r.Intn(maxRes); k++ {
 					chk := n
 					if chk > 3 {
@@ -588,6 +597,8 @@ func confBoundary(r *Rng) []c19Case {
 	// out-of-order delivery: latest goes backwards, confirmations may be negative
 	add("out-of-order-latest-backwards", []c19Del{{N: 100}, {N: 102, HasTx: true, Transmits: []c19Transmit{{From: 2, Round: 1, Results: []c19Result{{Upkeep: 3, Check: 99}}}}}, {N: 101}})
 	add("empty-perform-transaction", []c19Del{{N: 50}, {N: 51, HasTx: true}, {N: 52}})
+	add("garbage-report-among-valid", []c19Del{{N: 50}, {N: 51, HasTx: true, Transmits: []c19Transmit{{From: 1, Round: 1, Garbage: true}, {From: 2, Round: 2, Results: []c19Result{{Upkeep: 1, Check: 49}}}}},
+		{N: 52, HasTx: true, Transmits: []c19Transmit{{From: 3, Round: 3, Results: []c19Result{{Upkeep: 2, Check: 50}}}}}, {N: 53}})
 	add("report-without-results", []c19Del{{N: 50}, {N: 51, HasTx: true, Transmits: []c19Transmit{{From: 1, Round: 1}, {From: 2, Round: 2, Results: []c19Result{{Upkeep: 1, Check: 49}}}}}, {N: 52}})
 	return cs
 }
